@@ -55,7 +55,19 @@ theorem normFields_cons (S : Schema) (n : Nat) (f : Field) (fs : List Field) (v 
           match normFields S n fs vs ver2 with
           | none => none
           | some (vs', ver3) => some (v' :: vs', ver3)) := by
-  rw [normFields]; rfl
+  rw [normFields.eq_def]; rfl
+
+theorem Res.ite_bind {α β : Type} (c : Prop) [Decidable c] (x y : Res α) (g : α → Res β) :
+    (if c then x >>= g else y >>= g) = ((if c then x else y) >>= g) := by
+  split <;> rfl
+
+theorem Res.ite_ite_bind {α β : Type} (c1 c2 : Prop) [Decidable c1] [Decidable c2] (x y z : Res α)
+    (g : α → Res β) :
+    (if c1 then x >>= g else if c2 then y >>= g else z >>= g)
+      = ((if c1 then x else if c2 then y else z) >>= g) := by
+  split
+  · rfl
+  · split <;> rfl
 
 theorem encFields_zero (S : Schema) (fs : List Field) (vs : List Val) (ver : Option Ver) :
     encFields S 0 fs vs ver = .err .other := by rw [encFields]
@@ -71,7 +83,8 @@ theorem encFields_cons (S : Schema) (n : Nat) (f : Field) (fs : List Field) (v :
          else encK S n f.kind (f.etag S v) v (f.ver1 v ver))
       let (b, ver3) ← encFields S n fs vs ver2
       pure (a ++ b, ver3)) := by
-  rw [encFields]; rfl
+  rw [encFields.eq_def]
+  exact Res.ite_bind _ _ _ _
 
 theorem decFields_nil (S : Schema) (n : Nat) (c : Cur) (ver : Option Ver) :
     decFields S (n + 1) [] c ver = .ok ([], c, ver) := by simp [decFields]
@@ -86,6 +99,7 @@ theorem decFields_cons (S : Schema) (n : Nat) (f : Field) (fs : List Field) (c :
       let ver2 := if f.setVersion then some v.asVer else ver1
       let (vs, st) ← decFields S n fs c1 ver2
       pure (v :: vs, st)) := by
-  rw [decFields]; rfl
+  rw [decFields.eq_def]
+  exact Res.ite_ite_bind _ _ _ _ _ _
 
 end Kmip
